@@ -17,6 +17,7 @@ from . import c02
 
 ID = "C07"
 BUDGET = {"quick": 16000, "thorough": 200000}
+FUZZ = {"thorough": 4000}  # coverage-guided stage: libFuzzer runs per worker (x16), see vk/fuzz.py
 RULE = (
     "Hypothesis: untied profiles over 2-6 candidates with planted solid coalitions (a generated "
     "share of the ballots starts with a permutation of a chosen set S, anything after it; other "
